@@ -7,6 +7,8 @@ construction helpers).  Same protocol as Drivers/C11.lean:
 import EzdxfVerif.Model.Rat3
 import EzdxfVerif.Gen.TwinsPy
 import EzdxfVerif.Gen.TwinsPyx
+import EzdxfVerif.Gen.TwinLoopsPy
+import EzdxfVerif.Gen.TwinLoopsPyx
 import Drivers.Proto
 open EzdxfVerif.Rat3 EzdxfVerif.Gen
 
@@ -193,8 +195,95 @@ open TwinsPyx
 c10_kernels
 end Pyx
 
+
+-- ------------------------------------------------------------------------------------------- loops (session 3)
+def showInt (i : Int) : String := toString i
+def exList : Except PyErr (List Rat) → Out
+  | .ok l => .ok l | .error e => .err e
+def optOut : Option Out → Out
+  | some o => o | none => .ok [] "fuel;"
+
+def parseSeg (s : String) : Option (V3 × V3) :=
+  match s.splitOn ">" with
+  | [a, b] => do let a ← parseV3 a; let b ← parseV3 b; pure (a, b)
+  | _ => none
+
+def showState (st : EzdxfVerif.TwinLoops.LtState) : List Rat := [(st.cur : Rat), st.cdl, if st.isDash then 1 else 0]
+
+/-- several consecutive `line_segment` calls of ONE renderer: "n1,n2,…;" (segments yielded per call) then all end points (the state of the Cython object is not readable from Python) -/
+def runSegments (ls : List Rat → Nat → EzdxfVerif.TwinLoops.LtState → V3 → V3 → Rat → Option (Except PyErr (EzdxfVerif.TwinLoops.LtState × List (V3 × V3))))
+    (rad : V3 → V3 → Rat) (dashes : List Rat) :
+    List (V3 × V3) → EzdxfVerif.TwinLoops.LtState → List Nat → List Rat → Out
+  | [], _, counts, vals => .ok vals (",".intercalate (counts.map toString) ++ ";")
+  | (a, b) :: rest, st, counts, vals =>
+    match ls dashes 1000000 st a b (sqrtA (rad a b)) with
+    | none => .ok [] "fuel;"
+    | some (.error e) => .err e
+    | some (.ok (st', segs)) =>
+      runSegments ls rad dashes rest st' (counts ++ [segs.length]) (vals ++ (segs.map fun sg => v3l sg.1 ++ v3l sg.2).flatten)
+
+set_option hygiene false in
+local macro "c10_loops" : command => `(
+def runLoop (kernel : String) (a : List String) : Option Out :=
+  match kernel, a with
+  | "findSpan", [knots, order, count, u] => do
+      let knots ← parseRats knots; let order ← order.toNat?; let count ← count.toNat?; let u ← parseRat u
+      match findSpan knots order count u with
+      | some s => pure (.ok [] (showInt s))
+      | none => pure (.ok [] "fuel")
+  | "basisFuncs", [knots, weights, order, span, u] => do
+      let knots ← parseRats knots; let weights ← parseRats weights; let order ← order.toNat?
+      let span ← Proto.parseInt span; let u ← parseRat u
+      pure (exList (basisFuncs knots weights order span u))
+  | "basisVector", [knots, weights, order, count, t] => do
+      let knots ← parseRats knots; let weights ← parseRats weights; let order ← order.toNat?; let count ← count.toNat?
+      let t ← parseRat t
+      pure (optOut ((basisVector knots weights order count t).map exList))
+  | "evalPoint", [knots, weights, order, cps, u] => do
+      let knots ← parseRats knots; let weights ← parseRats weights; let order ← order.toNat?
+      let cps ← parseList parseV3 cps; let u ← parseRat u
+      pure (optOut ((evalPoint knots weights order cps u).map exV3))
+  | "evalDerivative", [knots, weights, order, cps, u, n, ders] => do
+      let knots ← parseRats knots; let weights ← parseRats weights; let order ← order.toNat?
+      let cps ← parseList parseV3 cps; let u ← parseRat u; let n ← n.toNat?
+      let ders ← parseList parseRats ders
+      match evalDerivative EzdxfVerif.TwinLoops.binomPy (fun _ _ _ => .ok ders) knots weights order cps u n with
+      | none => pure (.ok [] "fuel;")
+      | some (.error e) => pure (.err e)
+      | some (.ok vs) => pure (.ok (vs.map v3l).flatten (toString vs.length ++ ";"))
+  | "lineSegments", [dashes, segs] => do
+      let dashes ← parseRats dashes; let segs ← parseList parseSeg segs
+      pure (runSegments lineSegment lsLength_rad1 dashes segs (EzdxfVerif.TwinLoops.ltInit dashes) [] [])
+  | "clockwise", [pts] => do
+      let pts ← parseList parseV2 pts
+      match clockwise pts with
+      | .ok b => pure (.ok [] (showB b))
+      | .error e => pure (.err e)
+  | _, _ => none)
+
+namespace Py
+open TwinLoopsPy
+c10_loops
+end Py
+
+namespace Pyx
+open TwinLoopsPyx
+c10_loops
+end Pyx
+
+def runNp (a : List String) : Option Out :=
+  match a with
+  | [pts] => do
+      let pts ← parseList parseV2 pts
+      match TwinLoopsPyx.clockwiseNp pts with
+      | .ok b => pure (.ok [] (showB b))
+      | .error e => pure (.err e)
+  | _ => none
+
 def runTwin (twin kernel : String) (a : List String) : Option Out :=
-  if twin = "py" then Py.run kernel a else if twin = "pyx" then Pyx.run kernel a else none
+  if kernel = "clockwiseNp" then runNp a else
+  if twin = "py" then (Py.run kernel a).orElse (fun _ => Py.runLoop kernel a)
+  else if twin = "pyx" then (Pyx.run kernel a).orElse (fun _ => Pyx.runLoop kernel a) else none
 
 def parseTol (s : String) : Option (Rat → Rat) :=
   match s.splitOn ":" with
